@@ -1266,6 +1266,10 @@ fn process_file_content(
 
     // Find matches
     for (line_num, line) in lines.iter().enumerate() {
+        // `lines()` yields subslices of `content`: positions found inside `line` are relative to the
+        // line, but the plan's `start`/`end` are offsets into the file (that is how apply reads them)
+        let line_offset = line.as_ptr() as usize - content.as_ptr() as usize;
+
         // Skip excluded lines
         if let Some(regex) = exclude_lines_regex {
             if regex.is_match(line) {
@@ -1310,8 +1314,8 @@ fn process_file_content(
                     variant: pattern.to_string(),
                     content: matched_text.to_string(),
                     replace: replacement_text,
-                    start,
-                    end,
+                    start: line_offset + start,
+                    end: line_offset + end,
                     line_before: Some((*line).to_string()),
                     line_after: Some(line_after),
                     coercion_applied: None,
@@ -1343,8 +1347,8 @@ fn process_file_content(
                     variant: pattern.to_string(),
                     content: pattern.to_string(),
                     replace: replacement.to_string(),
-                    start,
-                    end,
+                    start: line_offset + start,
+                    end: line_offset + end,
                     line_before: Some((*line).to_string()),
                     line_after: Some(line_after),
                     coercion_applied: None,
